@@ -1983,7 +1983,12 @@ int EGLPNUM_TYPENAME_ILLlib_chgsense (
 			qslp->sense[rowlist[i]] = 'R';
 			EGLPNUM_TYPENAME_EGlpNumZero(qslp->lower[j]);
 			EGLPNUM_TYPENAME_EGlpNumZero(qslp->upper[j]);
+			/* same convention as EGLPNUM_TYPENAME_ILLlib_addrow:
+			 * rhs <= a.x <= rhs + range, i.e. a.x - logical = rhs */
 			EGLPNUM_TYPENAME_EGlpNumOne(A->matval[k]);
+			EGLPNUM_TYPENAME_EGlpNumSign(A->matval[k]);
+			if (qslp->rangeval)
+				EGLPNUM_TYPENAME_EGlpNumZero(qslp->rangeval[rowlist[i]]);
 			break;
 		case 'E':									/* Artificial */
 			qslp->sense[rowlist[i]] = 'E';
@@ -3331,6 +3336,8 @@ int EGLPNUM_TYPENAME_ILLlib_chgrange (
 	}
 	
 	EGLPNUM_TYPENAME_EGlpNumCopy(qslp->rangeval[indx], coef);
+	/* the solver sees the range as the upper bound of the row's logical */
+	EGLPNUM_TYPENAME_EGlpNumCopy(qslp->upper[qslp->rowmap[indx]], coef);
 
 CLEANUP:
 
